@@ -334,6 +334,13 @@ func (x *vf31wNetwork) GetNetMapByEpoch(e uint64) (*netmap.NetMap, error) {
 	return nm, nil
 }
 
+// vf31wState is the node's view of the chain state (what cfg.networkState is on a node).
+type vf31wState struct{ w *vf31wWorld }
+
+func (x vf31wState) CurrentEpoch() uint64         { return x.w.epoch }
+func (x vf31wState) CurrentBlock() uint32         { return uint32(x.w.epoch)*240 + 7 }
+func (x vf31wState) CurrentEpochDuration() uint64 { return 240 }
+
 type vf31wContainers struct {
 	w        *vf31wWorld
 	cnr      [2]container.Container
@@ -461,7 +468,7 @@ func TestVerif_C31_Wiring(t *testing.T) {
 		}
 		localPub := w.keys[0].pub
 		var maintenance atomic.Bool
-		fsChain := newFSChainForObjects(placementSvc, func(k []byte) bool { return bytes.Equal(k, localPub) }, nil, cs, &maintenance, nil)
+		fsChain := newFSChainForObjects(placementSvc, func(k []byte) bool { return bytes.Equal(k, localPub) }, vf31wState{w}, cs, &maintenance, nil)
 		st := &vf31wStorage{stored: map[oid.Address]struct{}{}}
 		srv := objectService.New(nil, fsChain, st, nil, *w.keys[0].priv, nil, nil, nil, nil, zap.NewNop())
 
